@@ -3,8 +3,7 @@
    definition [si_spec]; frame count; dtype rule; energy = unit impulse;
    constructor geometry and filter preparation. *)
 From Coq Require Import ZArith List Bool Lia ZifyBool.
-From Verif Require Import lib.C03_ListZ C03.Model C03.ProofsKernel C03.ProofsBlocks
-     C03.ProofsStream C03.ProofsChunk.
+From Verif Require Import lib.C03_ListZ C03.Model C03.ProofsKernel C03.ProofsBlocks C03.ProofsStream C03.ProofsChunk.
 Import ListNotations.
 Open Scope Z_scope.
 
@@ -34,20 +33,13 @@ Section Full.
   Local Notation ys := (ys K kzero kadd kmul phi).
   Local Notation lconv := (lconv K kzero kadd kmul).
   Local Notation off := (off K).
+  Local Notation pre := (pre K).
   Local Notation geo := (geo K).
   Local Notation ybuf_of := (ybuf_of K kzero kadd kmul phi).
   Local Notation Inv := (Inv K kzero kadd kmul phi).
   Local Notation blocks_of := (blocks_of K kzero kadd kmul).
 
   Let chunk_body_spec := chunk_body_spec K kzero kadd kmul phi post add_assoc add_0_l add_0_r.
-
-  (* the hypothesis of the theorems: constructor facts + "frame shift shorter
-     than the longest filter's one-sided support", in the form the proof needs *)
-  Definition pre (c : cfg) : Prop :=
-    geo c /\
-    if cCentered K c
-    then cTr K c <= cM K c - 1 /\ cS K c - cS K c / 2 <= cM K c
-    else cS K c + cTr K c + 1 <= cM K c.
 
   (* ---- the documented frames do not depend on what follows / on zero padding ---- *)
   Lemma frame_spec_prefix c xs more k :
@@ -210,7 +202,7 @@ Section Full.
                      = map (frame_spec c (xs ++ ch)) (zrange 0 (F + zlen fr))).
       { pose proof HI as (_ & _ & _ & _ & _ & _ & _ & _ & HF & _).
         rewrite zrange_app by (pose proof (zlen_nonneg fr); lia). rewrite map_app.
-        rewrite <- Fr. f_equal.
+        replace (0 + F) with F by lia. rewrite <- Fr. f_equal.
         apply map_ext_in. intros k Hk. apply in_zrange in Hk. symmetry.
         apply frame_spec_prefix. apply (Inv_frames_seen c st xs F G HI). lia. }
       rewrite Eacc.
@@ -220,7 +212,7 @@ Section Full.
 
   Lemma si_spec_nil c : 0 < cS K c -> si_spec c [] = [].
   Proof.
-    intros. unfold Model.si_spec, num_frames_spec. rewrite zlen_nil.
+    intros. unfold Model.si_spec, num_frames_spec. change (zlen (@nil K)) with 0.
     rewrite Z.div_small; [reflexivity|].
     split; [apply Z.div_pos; lia|]. apply Z.div_lt_upper_bound; lia.
   Qed.
@@ -352,6 +344,32 @@ Section Full.
     intros Hk Hi. unfold Model.si_spec, num_frames_spec.
     rewrite (znth_map _ k _ 0) by (rewrite zlen_zrange; lia).
     rewrite znth_zrange by lia. unfold Model.frame_spec.
-    rewrite (znth_map _ i _ []) by lia. f_equal. lia.
+    rewrite (znth_map _ i _ []) by lia. reflexivity.
+  Qed.
+  (* ---- corollaries in the form Props.v exports ---- *)
+  Lemma si_chunk_invariance_l c st d c1 c2 :
+    pre c -> started K st = false -> is_floating d = true -> c1 <> [] -> c2 <> [] ->
+    concat c1 = concat c2 ->
+    exists st1 st2 rows,
+      si_stream c st (map (fun ch => (d, ch)) c1) = Ok (st1, d, rows) /\
+      si_stream c st (map (fun ch => (d, ch)) c2) = Ok (st2, d, rows).
+  Proof.
+    intros HP Hns Hfl H1 H2 Hc.
+    destruct (si_stream_spec c st d c1 HP Hns Hfl H1) as (st1 & E1 & _).
+    destruct (si_stream_spec c st d c2 HP Hns Hfl H2) as (st2 & E2 & _).
+    exists st1, st2, (si_spec c (concat c1)). split; [exact E1|]. rewrite Hc. exact E2.
+  Qed.
+
+  Lemma fbf_eq_full_l c st d xs cs :
+    pre c -> started K st = false -> is_floating d = true -> 1 <= cs -> xs <> [] ->
+    exists st1 st2 rows,
+      fbf c st (d, xs) cs = Ok (st1, d, rows) /\
+      compute_full c st (d, xs) = Ok (st2, d, rows) /\
+      rows = si_spec c xs.
+  Proof.
+    intros HP Hns Hfl Hcs Hne.
+    destruct (fbf_spec c st d xs cs HP Hns Hfl Hcs Hne) as (st1 & E1 & _).
+    destruct (compute_full_spec c st d xs HP Hns Hfl) as (st2 & E2 & _).
+    exists st1, st2, (si_spec c xs). auto.
   Qed.
 End Full.
